@@ -119,10 +119,11 @@ def run(prop, seed, budget, ctx):
 
     caches = {}
     orig_rc = recursion.recursion_cache
-    def _rc(cls):
+    def _rc(cls, *rest):
         # `recursion_cache` is an lru_cache'd function returning a fresh dict: a hit returns the stored dict; on a miss the
         # function body runs (a yield point: another thread may miss as well), the first result is stored, and every caller
         # gets the dict *it* computed - the loser of a concurrent miss holds a private dict
+        # (`rest`: the further arguments of the memo - the default conversion - are the same in every call of this mode)
         if cls in caches: return caches[cls]
         if state["sched"]: state["sched"].point()
         d = YDict()
